@@ -118,6 +118,12 @@ fn fi_stream(ctx: &mut Ctx, rng: &mut Rng, size: usize, n: u64, kind: u64) {
     let salt = rng.next_u64();
     let mut next = 1u64;
     for i in 0..=n {
+        // the bound the configuration implies: 0.75 * max(size, 8) counters (not whatever the sketch reports)
+        let cap = size.max(8) * 3 / 4;
+        if a.maximum_map_capacity() != cap || b.maximum_map_capacity() != cap {
+            ctx.violation("frequent items maximum_map_capacity is not 0.75 * configured size", format!("size {}: {} / {}", size, a.maximum_map_capacity(), cap));
+            break;
+        }
         if a.num_active_items() > a.maximum_map_capacity() || b.num_active_items() > b.maximum_map_capacity() {
             ctx.violation("frequent items tracks more than maximum_map_capacity items", format!("size {} after {} items: {} / {}", size, i, a.num_active_items(), a.maximum_map_capacity()));
             break;
@@ -313,7 +319,7 @@ pub fn run(ctx: &mut Ctx) {
         let cases = [
             Json::obj().set("lane", "stream").set("family", "hll").set("lg_k", rng.range(4, 14)).set("n", n).set("kind", kind),
             Json::obj().set("lane", "stream").set("family", "theta").set("lg_k", rng.range(5, 12)).set("rf", rng.below(4)).set("p", *rng.pick(&[1.0f64, 1.0, 0.3, 0.01])).set("n", n).set("kind", kind),
-            Json::obj().set("lane", "stream").set("family", "frequent").set("lg_size", rng.range(3, 11)).set("n", n.min(1 << 20)).set("kind", kind),
+            Json::obj().set("lane", "stream").set("family", "frequent").set("lg_size", if rng.chance(0.25) { rng.range(0, 2) } else { rng.range(3, 11) }).set("n", n.min(1 << 20)).set("kind", kind),
             Json::obj().set("lane", "stream").set("family", "fixed").set("n", n.min(1 << 20)).set("kind", kind),
         ];
         for (j, c) in cases.into_iter().enumerate() {
